@@ -72,14 +72,46 @@ def in_range(ctx, term, lo, hi):
 
 # ---------------------------------------------------------------------------------------
 
+def need_driven(col, facts, name, entries):
+    """Class invariants are an assume/guarantee device, not part of C17: an invariant is assumed in the pre-states (and then
+    has to be re-established on every post-state, R-INV) only when some panic obligation cannot be discharged without it.
+    The group is first analysed from pre-states WITHOUT the optional invariants; if every obligation is discharged that
+    way, nothing is assumed and nothing needs re-establishing (a change that breaks `gate <=> list non-empty` without making
+    anything panic is C04's business, not C17's).  Otherwise the group is analysed again with the invariants assumed and
+    R-INV obligations on every post-state."""
+    from ..core import Result
+    used = 'none'
+    tmp = Result(col.res.prop)
+    c2 = Collector(tmp, facts)
+    entries(c2, facts, strong=False)
+    if tmp.violations():
+        used = 'class invariant assumed and re-established (needed by: %s)' % '; '.join(sorted({o.instance[:80] for o in tmp.violations()})[:3])
+        tmp = Result(col.res.prop)
+        c2 = Collector(tmp, facts)
+        entries(c2, facts, strong=True)
+    res = col.res
+    res.obs.extend(tmp.obs)
+    res.functions |= tmp.functions
+    res.models |= tmp.models
+    res.partitions += tmp.partitions
+    res.extra['abstract_states_explored'] = res.extra.get('abstract_states_explored', 0) + tmp.extra.get('abstract_states_explored', 0)
+    for u in tmp.unmodelled:
+        if u not in res.unmodelled:
+            res.unmodelled.append(u)
+    col.visited |= c2.visited
+    col.entries += c2.entries
+    col.paths += c2.paths
+    res.extra.setdefault('optional_class_invariants', {})[name] = used
+
+
 def check_panics(res, facts):
     col = Collector(res, facts)
     adsr_entries(col, facts)
     lfo_entries(col, facts)
     glide_entries(col, facts)
-    quant_entries(col, facts)
-    ribbon_entries(col, facts)
-    midi_entries(col, facts)
+    need_driven(col, facts, 'quantizer', quant_entries)
+    need_driven(col, facts, 'ribbon', ribbon_entries)
+    need_driven(col, facts, 'midi', midi_entries)
     conversions(col, facts)
     coverage(col, facts)
     loops(res, facts)
@@ -236,16 +268,18 @@ def glide_entries(col, facts):
     col.run('GlideProcessor::process', it, st, G.GP + '::process', gl.processor(it, st, tmpl), [float_sym(st, 'x')])
 
 
-def quant_entries(col, facts):
+def quant_entries(col, facts, strong=True):
     qz = QZ.Qz(facts)
 
-    def inv(o, post):
+    def inv_(o, post):
         ok, r = in_range(o.ctx, post.get('allowed').term, 1, 4095)
         return [(ok, 'allowed in [1,4095]: %s' % r)]
+    inv = inv_ if strong else None
 
     def mkq(it, st):
         q = it.sym_value(st, adt_ty(QZ.Q), 'self')
-        st.ctx.ranges[('sym', 'self.allowed')] = (Fr(1), Fr(4095))
+        if strong:
+            st.ctx.ranges[('sym', 'self.allowed')] = (Fr(1), Fr(4095))
         return q
     it = qz.interp()
     col.run('Quantizer::new', it, State(), QZ.Q + '::new', None, [])
@@ -277,7 +311,7 @@ def quant_entries(col, facts):
         col.run(path.split('::')[-2] + '::' + path.split('::')[-1], it, st, path, None, [int_sym(st, 'n', 0, 255)])
 
 
-def ribbon_entries(col, facts):
+def ribbon_entries(col, facts, strong=True):
     rb = R.Rb(facts)
 
     def inv(o, post):
@@ -286,6 +320,8 @@ def ribbon_entries(col, facts):
         a = o.ctx.decide(cmp_term('Le', g('num_samples_received'), g('num_to_ignore_up_front'))) is True
         b = o.ctx.decide(cmp_term('Le', g('num_samples_written'), N)) is True
         out = [(a, 'received <= ignore: %r' % (g('num_samples_received'),)), (b, 'written <= capacity: %r' % (g('num_samples_written'),))]
+        if not strong:
+            return out
         # a press is only reported while the run has filled the buffer; the buffer holds at least the samples of the run
         pr = R.bool_of(o.ctx, post.get('finger_is_pressing'))
         c = pr is False or o.ctx.decide(cmp_term('Eq', g('num_samples_written'), N)) is True
@@ -305,10 +341,10 @@ def ribbon_entries(col, facts):
                 rc, N = rb.controller(it, st, pressing=pressing)
                 g = lambda nm: rc.get(nm).term
                 # class invariant (re-established by `inv` on every post-state)
-                if pressing:
+                if pressing and strong:
                     st.ctx.assume(cmp_term('Eq', g('num_samples_written'), N))
                 buf0 = rc.get('buff')
-                if isinstance(buf0, ContV) and buf0.extra and buf0.extra.get('fill') is not None:
+                if strong and isinstance(buf0, ContV) and buf0.extra and buf0.extra.get('fill') is not None:
                     st.ctx.assume(cmp_term('Le', g('num_samples_written'), buf0.extra['fill']))
                 x = float_sym(st, 'x', 0, 1)
                 st.ctx.assume(cmp_term('Lt' if in_rng else 'Ge', x.term, g('finger_press_high_boundary')))
@@ -316,7 +352,7 @@ def ribbon_entries(col, facts):
                     st.ctx.assume(cmp_term('Ge' if settled else 'Lt', g('num_samples_received') + 1, g('num_to_ignore_up_front')))
                 if full is not None:
                     st.ctx.assume(cmp_term('Ge' if full else 'Lt', g('num_samples_written') + 1, N))
-                if pressing and full is False:
+                if strong and pressing and full is False:
                     continue    # excluded by the invariant: a reported press has a full buffer
                 col.run('RibbonController::poll|in=%s|pressing=%s|settled=%s|full=%s' % (in_rng, pressing, settled, full), it, st, R.RCF + 'poll', rc, [x], genv={'BUFFER_CAPACITY': N}, post_inv=inv)
     for meth in ('value', 'finger_is_pressing', 'finger_just_pressed', 'finger_just_released'):
@@ -334,7 +370,7 @@ def ribbon_entries(col, facts):
     col.run('sample_rate_to_capacity', it, st, R.HELPER, None, [int_sym(st, 'sr', FS_MIN, FS_MAX, 'u32')])
 
 
-def midi_entries(col, facts):
+def midi_entries(col, facts, strong=True):
     rxf = M.Rx(facts)
     snames = variant_names(facts, M.PST)
     cap = facts.const_int('synth_utils::mono_midi_receiver::HELD_DOWN_NOTE_BUFFER_LEN')
@@ -347,6 +383,8 @@ def midi_entries(col, facts):
             ok, r = in_range(o.ctx, lst.len, 0, cap)
         ok2, r2 = in_range(o.ctx, post.get('channel').term, 0, 15)
         out = [(ok, 'held list length <= %d: %s' % (cap, r)), (ok2, 'channel <= 15: %s' % r2)]
+        if not strong:
+            return out
         # the rest of the class invariant the pre-states assume (class_inv): gate <=> non-empty, edge latches consistent
         if ok:
             llo, lhi = o.ctx.rng(lst.len)
@@ -374,7 +412,7 @@ def midi_entries(col, facts):
             for lr in len_classes:
                 it = rxf.interp()
                 st = State()
-                rx = rxf.receiver(it, st, list_len=lr, class_inv=True)
+                rx = rxf.receiver(it, st, list_len=lr, class_inv=strong)
                 vi = variant_index(facts, M.PST, sname)
                 sv = EnumV(M.PST, vi, {}, vnames=snames, name='state')
                 it.enum_payload(st, sv, vi)
